@@ -54,6 +54,10 @@ m('bn-funcinit-d1', 'stack/stack.go', "\tif endPkg != -1 {\n\t\t// Only the path
 m('bn-findroots-d12', 'stack/context.go', "if r := isRootedIn(s.LocalGOROOT+src, parts); strings.HasSuffix(r, src) {", "if r := isRootedIn(s.LocalGOROOT+src, parts); r != \"\" {", 'C03', 'BN-neg', note='reintroduces D12')
 m('pn-receiver-panic', 'stack/source.go', "\tif f.Recv != nil && len(f.Recv.List) == 1 {\n", "\tif f.Recv != nil && len(f.Recv.List) != 1 {\n\t\tpanic(\"Expect only one receiver; please fix panicparse's code\")\n\t}\n\tif f.Recv != nil {\n", 'C03', 'PN-panic', note='reintroduces D9')
 m('al-unsafe-state', 'stack/context.go', "\t\t\t\t\tg.State = string(match[2])\n", "\t\t\t\t\tg.State = unsafeString(match[2])\n", 'C09', 'AL-buffer')
+m('rx-header-no-mp', 'stack/context.go', "(?: gp=[^ ]+ m=[^ ]+(?: mp=[^ ]+)?)?", "(?: gp=[^ ]+ m=[^ ]+)?", 'C01', 'RX-model')
+m('rx-file-tab-only', 'stack/context.go', 'reFile = regexp.MustCompile("^(?:\\t| +)(', 'reFile = regexp.MustCompile("^(?:\\t)(', 'C01', 'RX-model')
+m('rx-header-short-id', 'stack/context.go', '[ \\t]*)goroutine (\\\\d+)(?:', '[ \\t]*)goroutine (\\\\d{1,6})(?:', 'C20', 'RX-model')
+m('rx-race-prev-capital', 'stack/context.go', "`^Previous (read|write) at", "`^Previous (Read|Write) at", 'C08', 'RX-race')
 # --- must stay silent (behaviour-preserving refactorings)
 m('benign-skip-helper', 'internal/main.go', None, None, 'C16', '', kind='benign', note='correct helper predicate shared by both console writers')
 m('benign-rename-locals', 'stack/bucket.go', "\t\tl := bs[i]\n\t\tr := bs[j]\n\t\tif l.First || r.First {\n\t\t\treturn l.First\n\t\t}\n\t\tif l.Signature.less(&r.Signature) {\n\t\t\treturn true\n\t\t}\n\t\tif r.Signature.less(&l.Signature) {\n\t\t\treturn false\n\t\t}\n\t\tif len(l.IDs) != len(r.IDs) {\n\t\t\treturn len(r.IDs) > len(l.IDs)\n\t\t}\n\t\t// Buckets are collected from a map; break ties on the smallest goroutine\n\t\t// ID (IDs are sorted and never shared between buckets) so the order is\n\t\t// deterministic.\n\t\treturn l.IDs[0] < r.IDs[0]", "\t\tleft := bs[i]\n\t\tright := bs[j]\n\t\tif left.First || right.First {\n\t\t\treturn left.First\n\t\t}\n\t\tif left.Signature.less(&right.Signature) {\n\t\t\treturn true\n\t\t}\n\t\tif right.Signature.less(&left.Signature) {\n\t\t\treturn false\n\t\t}\n\t\tif len(left.IDs) != len(right.IDs) {\n\t\t\treturn len(right.IDs) > len(left.IDs)\n\t\t}\n\t\treturn left.IDs[0] < right.IDs[0]", 'C13 C06 C04', '', kind='benign')
